@@ -212,8 +212,11 @@ func c20Run(rc *RunCtx) *Violation {
 				}
 			}(p)
 		}
+		noBeatPhase.Store(1)
 		close(start)
 		wg.Wait()
+		noBeatPhase.Store(0)
+		heartbeat.Add(1)
 		rc.Probe("parallel_runs")
 	} else {
 		// ---- scheduled interleaving: one goroutine per pair, parked before every call
